@@ -498,9 +498,17 @@ func (p *Program) parseContractFile(fname string, f *ast.File) error {
 
 var predUseRe = regexp.MustCompile(`^(requires|ensures|assume|invariant)(#[A-Za-z0-9_.\-]+)?(\{[A-Z0-9, ]+\})?\s+(\w+)\((.*)\)$`)
 
+var predGuardRe = regexp.MustCompile(`^(requires|ensures|assume|invariant)(#[A-Za-z0-9_.\-]+)?(\{[A-Z0-9, ]+\})?\s+(.*\S)\s*==>\s*(\w+)\(([^()]*)\)$`)
+
 // expandPred expands "requires pred(args)" into one clause per pred clause (textual substitution of whole identifiers).
 func (p *Program) expandPred(text string) []string {
 	m := predUseRe.FindStringSubmatch(strings.TrimSpace(text))
+	guard := ""
+	if gm := predGuardRe.FindStringSubmatch(strings.TrimSpace(text)); gm != nil && p.Preds[gm[5]] != nil {
+		// "<guard> ==> pred(args)": every clause of the predicate under the guard
+		guard = gm[4] + " ==> "
+		m = []string{gm[0], gm[1], gm[2], gm[3], gm[5], gm[6]}
+	}
 	if m == nil {
 		return []string{text}
 	}
@@ -524,7 +532,7 @@ func (p *Program) expandPred(text string) []string {
 			label += "."
 		}
 		label += pr.Name + "." + c.Label
-		out = append(out, m[1]+"#"+label+m[3]+" "+body)
+		out = append(out, m[1]+"#"+label+m[3]+" "+guard+body)
 	}
 	return out
 }
